@@ -105,6 +105,7 @@ func genC04(r *Rng, tier string, idx int) *Plan {
 		p.Mode = "store-fault-then-replay"
 		p.Faults = append(p.Faults, Fault{Site: "store.SetTokenResponse", Nth: r.Range(1, nb), Kind: r.Pick([]string{"err-before", "err-after", "redis-torn:2", "redis-torn:4", "redis-torn:6", "redis-torn:7"})})
 	}
+	sprayReplicas(r, p, 0.4)
 	return p
 }
 
@@ -152,6 +153,7 @@ func genC05(r *Rng, tier string, idx int) *Plan {
 		}
 		p.Faults = append(p.Faults, Fault{Site: "net.dial", Nth: r.Range(3, 8), Kind: "refused"})
 	}
+	sprayReplicas(r, p, 0.4)
 	return p
 }
 
@@ -259,6 +261,7 @@ func genC11(r *Rng, tier string, idx int) *Plan {
 			p.Faults = append(p.Faults, Fault{Site: "idp.token", Nth: r.Range(2, 8), Kind: r.Pick([]string{"reset-after", "reset-before", "500", "truncated"})})
 		}
 	}
+	sprayReplicas(r, p, 0.4)
 	return p
 }
 
